@@ -3,7 +3,7 @@
 // pending requests, registered answers and device faults; afterwards a fixed valid telegram must still be received.
 //
 // input: byte0 config, byte1 chunking seed, rest = program:
-//   f0..f7  silent gap ((b&7)+1)*40 ms          f8  queue a request built from the next 6 bytes
+//   f0..f3  delay of 1..4 symbol times, f4..f7 silence of 60..240 ms     f8  queue a request built from the next 6 bytes
 //   f9      next read() fails                    fa  next write() fails         fb  device invalid until reopened
 //   fc      register an answer from next 5 bytes fd  next byte is a literal     fe  poll() hangs up      ff  read returns 0
 //   other   byte arrives 4.2 ms after the previous one
@@ -109,7 +109,8 @@ extern "C" int LLVMFuzzerTestOneInput(const uint8_t* data, size_t size) {
     auto feed = [&]() {
       while (!in.done() && g.rx.size() < 2) {
         uint8_t b = in.next();
-        if (b >= 0xf0 && b <= 0xf7) { fzd.lastRx = std::max(fzd.lastRx, g.now) + (int64_t)((b & 7) + 1) * 40 * MS; continue; }
+        if (b >= 0xf0 && b <= 0xf3) { fzd.lastRx = std::max(fzd.lastRx, g.now) + (int64_t)((b & 3) + 1) * SYM; continue; }          // short delay (one..four symbol times)
+        if (b >= 0xf4 && b <= 0xf7) { fzd.lastRx = std::max(fzd.lastRx, g.now) + (int64_t)((b & 3) + 1) * 60 * MS; continue; }      // silence beyond the timeouts
         if (b == 0xf8) {
           MasterSymbolString m;
           m.push_back(0x31); uint8_t zz = in.next(); m.push_back(zz == 0xaa || zz == 0xa9 ? 0x08 : zz); m.push_back(in.next()); m.push_back(in.next());
